@@ -250,10 +250,10 @@ def scenarios(tier, seed):
         quick.append(("inversion", {"n": 2, "mode": mode, "limit": 2, "cplx": False}))
         quick.append(("inversion", {"n": 1, "mode": mode, "limit": 2, "cplx": True}))
         thorough.append(("inversion", {"n": 2, "mode": mode, "limit": 3, "cplx": False}))
-    thorough.append(("cg", dict(base, kind="dense", ctrl="gradnorm_abs", limit=2)))
-    thorough.append(("cg", dict(base, kind="dense", ctrl="gradnorm_abs", limit=2, cplx=True)))
+    thorough.append(("cg", dict(base, kind="dense", ctrl="gradnorm_abs", limit=1)))
     thorough.append(("cg", dict(base, n=3, ctrl="gradnorm_abs", limit=2)))
-    thorough.append(("cg", dict(base, n=3, ctrl="gradnorm_abs", limit=3)))
+    # dense 2x2 with two iterations (real and complex) and the symbolic diagonal n = 3 with three iterations do not finish
+    # within 40 minutes: not claimed
     thorough.append(("inversion", {"n": 2, "mode": "inverse", "limit": 3, "cplx": True}))
     return quick if tier == "quick" else quick + thorough
 
@@ -277,7 +277,7 @@ META = {
                           "nifty.cl.minimization.quadratic_energy.QuadraticEnergy.{__init__,at,at_with_grad,apply_metric}",
                           "nifty.cl.minimization.iteration_controllers.{GradientNormController,GradInfNormController,DeltaEnergyController,AbsDeltaEnergyController}.{start,check}",
                           "nifty.cl.operators.inversion_enabler.InversionEnabler.apply", "nifty.cl.minimization.energy.Energy.gradient_norm"],
-    "bounds": {"system size": "n <= 2 (quick), n = 3 and dense 2x2 (thorough)", "iteration_limit": "1..3 or none (exact termination)",
+    "bounds": {"system size": "n <= 2 (quick); thorough: n = 3 with 2 iterations (3 for a fixed diagonal), dense 2x2 with 1 iteration (2 iterations do not finish and are not claimed)", "iteration_limit": "1..3 or none (exact termination)",
                "convergence_level": "1, 2", "nreset": "1, 2, 20"},
     "stubs": shims_cl.STUBS[:5],
     "outside": ["n > 3", "the size-40 conditioning study of the property text", "loss of orthogonality / round-off", "StochasticAbsDeltaEnergyController"],
